@@ -62,6 +62,17 @@ func RunConfig(prefix, in, out string) error {
 	}
 	defer os.RemoveAll(dir)
 	pemPath, keyPath := GenCert(dir)
+	// the same store behind a Unix domain socket (the driver lower-cases host names, socket paths included: the directory
+	// name must not contain capitals)
+	sockDir, err := os.MkdirTemp("/var/tmp", "vfsock")
+	if err != nil {
+		return err
+	}
+	defer os.RemoveAll(sockDir)
+	unixURL, uerr := fm.ListenUnix(filepath.Join(sockDir, "mongodb-27017.sock"))
+	if uerr != nil {
+		return uerr
+	}
 	self, _ := os.Executable()
 	supi := "imsi-" + prefix + "1"
 	for i, c := range cases {
@@ -70,7 +81,7 @@ func RunConfig(prefix, in, out string) error {
 		rfPort, abPort, sbiPort := FreePort(), FreePort(), FreePort()
 		y := c.Yaml
 		for k, v := range map[string]string{
-			"{MONGO}": url, "{PEM}": pemPath, "{KEY}": keyPath, "{RF}": fmt.Sprint(rfPort), "{AB}": fmt.Sprint(abPort), "{SBI}": fmt.Sprint(sbiPort),
+			"{MONGOUNIX}": unixURL, "{MONGO}": url, "{PEM}": pemPath, "{KEY}": keyPath, "{RF}": fmt.Sprint(rfPort), "{AB}": fmt.Sprint(abPort), "{SBI}": fmt.Sprint(sbiPort),
 		} {
 			y = strings.ReplaceAll(y, k, v)
 		}
